@@ -8,16 +8,20 @@ import (
 )
 
 // C10/O1 — the +6 rule and receipt processing.  Core of validator 0 over
-// {0,1,2}; 0..3 receipts with symbolic Accepted flags, type in {ADD, REMOVE,
-// unknown}, peer in {member 1, member 2, self 0, outsider 5, outsider 6};
+// {0,1,2}; 0..2 (thorough 0..3) receipts with symbolic Accepted flags, type in
+// {ADD, REMOVE, unknown}, peer in {member 1, self 0, outsider 5};
 // roundReceived a symbolic int.
 func VerifHarness_C10_O1() {
 	vc := verifNewCore(3, 0)
 	c := vc.c
 	rr := verifNondetInt("roundReceived")
-	verifAssume(rr > -3 && rr < 1<<40)
-	nrec := verifChoice("receipts", 4)
-	peerIdx := []int{1, 2, 0, 5, 6}
+	verifAssume(rr > -10 && rr < 1<<40)
+	maxRec := 2
+	if verifTier() > 0 {
+		maxRec = 3
+	}
+	nrec := verifChoice("receipts", maxRec+1)
+	peerIdx := []int{1, 0, 5}
 	var receipts []hg.InternalTransactionReceipt
 	// reference fold over public keys
 	expect := []string{vc.peers[0].PubKeyHex, vc.peers[1].PubKeyHex, vc.peers[2].PubKeyHex}
